@@ -6,6 +6,41 @@ import os
 VERIF = os.path.dirname(os.path.dirname(os.path.abspath(__file__)))
 
 CLAIMED = {
+    "C01": dict(
+        category="translation_validation",
+        technique="z3 existence query per accepting path of each program ('approved with the dangerous value'), model replayed, real run_detectors() must report",
+        text="For every program of the family and each of the nine path-reporting detectors, z3 decides over all groups (size, index, field values symbolic) whether an approved execution carries the dangerous value; if so the model is replayed on the concrete semantics and the real detector must report at least one path. Bounded by program shapes, unrolling 2, call depth 3.",
+        note="trusted: z3, the TEAL fragment semantics; well-formed transactions; programs with run-time comparisons of governed address/fee fields excluded as the property says; universal claim over constants rests on the K lemmas of C06-C09",
+        design_ref="DESIGN.md section 4 C01", engine="S",
+    ),
+    "C03": dict(
+        category="translation_validation",
+        technique="z3 symbolic execution under the direct-check (FREE) semantics per detector field; unsat danger on all accepting paths => real detector must report nothing",
+        text="Per program and detector the direct-check reading is explored with z3 (only same-block comparisons of the governed field with constants interpreted, everything else free, two-field detectors projected per field). If no accepting path admits the dangerous value the real detector must report no path.",
+        note="the FREE reading only admits more executions than the AVM, so the obligation never exceeds the property; bounded as C01",
+        design_ref="DESIGN.md section 4 C03", engine="S",
+    ),
+    "C07": dict(
+        category="translation_validation",
+        technique="CrossHair/z3 on _get_asserted for all uint64 constants x all well-formed (TypeEnum, OnCompletion, ApplicationID) valuations; z3 validation of per-block kind sets against all accepting executions",
+        text="K: for every comparison form (field x ==/!= x operand order x txn/gtxn/gtxns forms x numeric/named spelling) CrossHair confirms that each detector-relevant kind of any well-formed valuation stays in the true/false set, for all constants, and that no constant crashes the kernel. S: per program, every accepting execution's kind is in the set of every block it visits.",
+        note="known finding KF-C07-appid-oc (Pay/Axfer dropped by OnCompletion/ApplicationID checks) is listed; assumption: application creation calls are NoOp/OptIn",
+        design_ref="DESIGN.md section 4 C07",
+    ),
+    "C08": dict(
+        category="translation_validation",
+        technique="CrossHair/z3 on the address-set lattice (10 symbolic Booleans) and comparison kernels; z3 validation of per-block address information against all accepting executions; FREE-mode converse",
+        text="K: gamma(union)=gamma(a)|gamma(b), gamma(intersection)=gamma(a)&gamma(b) and invariant preservation over all representations; comparison kernels admit every non-zero address that satisfies the comparison and pin the compared side. S: soundness per accepting path and block for RekeyTo/CloseRemainderTo/AssetCloseTo/Sender with symbolic addresses; converse: a field pinned on every accepting direct-check path is not 'any address'.",
+        note="attacker address distinct from all named addresses; converse clause read as 'no unnamed address admitted'",
+        design_ref="DESIGN.md section 4 C08",
+    ),
+    "C09": dict(
+        category="translation_validation",
+        technique="CrossHair/z3 on the Fee kernels for all uint64 constants and fees (soundness + exact bound) and the FeeValue lattice laws; z3 validation of per-block bounds",
+        text="K: for all c and all fees f the true/false bound of every comparison form is an upper bound, the bounded side is exact, unknown never arises from a literal; lattice laws of FeeValue. S: on every accepting path Fee <= max_fee of every visited block (EXACT), and under the direct-check reading the bound is never below an admitted fee and is exact for a single direct check.",
+        note="'unknown' read as bounded by MAX_TRANSACTION_COST; the unbounded side of a comparison with 2^64-1 is accepted as 'no bound'",
+        design_ref="DESIGN.md section 4 C09",
+    ),
     "C06": dict(
         category="translation_validation",
         technique="z3 symbolic execution of each program (group size, own index, fields = solver variables) validates tealer's per-block sets; CrossHair/z3 proves the comparison kernels for all uint64 constants",
@@ -15,7 +50,7 @@ CLAIMED = {
     ),
 }
 
-NOT_YET = {'C01': 'check under construction in this build round (see DESIGN.md section 9); not claimed yet', 'C02': 'check under construction in this build round (see DESIGN.md section 9); not claimed yet', 'C03': 'check under construction in this build round (see DESIGN.md section 9); not claimed yet', 'C04': 'check under construction in this build round (see DESIGN.md section 9); not claimed yet', 'C05': 'check under construction in this build round (see DESIGN.md section 9); not claimed yet', 'C07': 'check under construction in this build round (see DESIGN.md section 9); not claimed yet', 'C08': 'check under construction in this build round (see DESIGN.md section 9); not claimed yet', 'C09': 'check under construction in this build round (see DESIGN.md section 9); not claimed yet', 'C10': 'check under construction in this build round (see DESIGN.md section 9); not claimed yet', 'C11': 'check under construction in this build round (see DESIGN.md section 9); not claimed yet', 'C12': 'check under construction in this build round (see DESIGN.md section 9); not claimed yet', 'C13': 'check under construction in this build round (see DESIGN.md section 9); not claimed yet', 'C14': 'check under construction in this build round (see DESIGN.md section 9); not claimed yet', 'C15': 'check under construction in this build round (see DESIGN.md section 9); not claimed yet', 'C16': 'check under construction in this build round (see DESIGN.md section 9); not claimed yet', 'C17': 'check under construction in this build round (see DESIGN.md section 9); not claimed yet', 'C19': 'check under construction in this build round (see DESIGN.md section 9); not claimed yet', 'C20': 'check under construction in this build round (see DESIGN.md section 9); not claimed yet', 'C18': 'relates DOT/JSON text renderings to internal objects: no run-time input, constant or schedule for a solver to range over; int->str/re/file output are beyond CrossHair (measured); reading files back would be output testing, another technique'}
+NOT_YET = {'C02': 'check under construction in this build round (see DESIGN.md section 9); not claimed yet', 'C04': 'check under construction in this build round (see DESIGN.md section 9); not claimed yet', 'C05': 'check under construction in this build round (see DESIGN.md section 9); not claimed yet', 'C10': 'check under construction in this build round (see DESIGN.md section 9); not claimed yet', 'C11': 'check under construction in this build round (see DESIGN.md section 9); not claimed yet', 'C12': 'check under construction in this build round (see DESIGN.md section 9); not claimed yet', 'C13': 'check under construction in this build round (see DESIGN.md section 9); not claimed yet', 'C14': 'check under construction in this build round (see DESIGN.md section 9); not claimed yet', 'C15': 'check under construction in this build round (see DESIGN.md section 9); not claimed yet', 'C16': 'check under construction in this build round (see DESIGN.md section 9); not claimed yet', 'C17': 'check under construction in this build round (see DESIGN.md section 9); not claimed yet', 'C19': 'check under construction in this build round (see DESIGN.md section 9); not claimed yet', 'C20': 'check under construction in this build round (see DESIGN.md section 9); not claimed yet', 'C18': 'relates DOT/JSON text renderings to internal objects: no run-time input, constant or schedule for a solver to range over; int->str/re/file output are beyond CrossHair (measured); reading files back would be output testing, another technique'}
 
 
 def main() -> None:
